@@ -262,8 +262,8 @@ Client == plan[3]
 \* a trace module needs (it only uses the operators)
 PlanQuick == {<<"req", 7, TRUE>>, <<"req", 6, FALSE>>, <<"push", 5, TRUE>>, <<"reqenc", 5, TRUE>>,
               <<"two", 3, TRUE>>, <<"uni", 1, TRUE>>}
-PlanThorough == {<<"req", 10, TRUE>>, <<"req", 9, FALSE>>, <<"push", 8, TRUE>>, <<"push", 6, FALSE>>,
-                 <<"reqenc", 8, TRUE>>, <<"reqenc", 6, FALSE>>, <<"two", 4, TRUE>>, <<"uni", 4, TRUE>>, <<"uni", 3, FALSE>>}
+PlanThorough == {<<"req", 9, TRUE>>, <<"req", 8, FALSE>>, <<"push", 7, TRUE>>, <<"push", 5, FALSE>>,
+                 <<"reqenc", 7, TRUE>>, <<"reqenc", 5, FALSE>>, <<"two", 4, TRUE>>, <<"uni", 3, TRUE>>, <<"uni", 2, FALSE>>}
 PlanTrace == {<<"req", 1, TRUE>>}
 PlanProbe == {<<"reqenc", 5, TRUE>>}          \* with Shipped = TRUE
 PlanNone == {}
